@@ -34,6 +34,7 @@ func runC18(c *core.Ctx) {
 	c.Rule("R6", "dependency queries read only the dependency graph and never write through an alias of it", 5)
 	c.Rule("R8", "the await primitive the dependency check relies on answers nil ⇔ the service is in the awaited state when the waiter wakes up", 1)
 	c.Rule("R9", "the stop helper the wrapper relies on really waits: every return of StopAndAwaitTerminated comes after StopAsync and AwaitTerminated", 1)
+	c.Rule("R10", "every module wrapper waits for the transitive dependencies (start) and transitive dependants (stop) of the very module it wraps", 3)
 	c.Rule("R7", "orderedDeps: a module is placed only after each of its dependencies has been placed (inductive invariant of the ordering loop)", 3)
 	pkg := c.Prog.Pkg("modules")
 	if pkg == nil {
@@ -354,6 +355,7 @@ func runC18(c *core.Ctx) {
 	// ---- R7
 	c18Await(c)
 	c18StopHelper(c)
+	c18WrapperDeps(c, pkg)
 	c18Order(c, pkg)
 	// ---- R6 purity of dependency queries
 	mgr := an.LookupType(pkg, "Manager")
@@ -769,5 +771,49 @@ func c18StopHelper(c *core.Ctx) {
 			}
 		}
 		c.Check(n > 0 && len(bad) == 0 && g.Before(targets[0], targets[1]), "R9", "func="+e.fn, fn.Pos(), fmt.Sprintf("%d returns, each behind %v in that order: %v", n, e.calls, bad), n)
+	}
+}
+
+// c18WrapperDeps (R10): the service wrapper of module n waits, before starting, for the modules named by
+// DependenciesForModule(n) — the TRANSITIVE dependencies — and, before stopping, for inverseDependenciesForModule(n).
+// Transitivity matters because a dependency without a service of its own (init function returning nil) does no
+// waiting on behalf of its dependants: with direct dependencies only, a module behind such a dependency would start
+// before (and keep running after a failure of) the module below it. Every construction of the wrapper passes exactly
+// those two queries, for the same name it wraps.
+func c18WrapperDeps(c *core.Ctx, pkg *packages.Package) {
+	n := 0
+	for _, top := range an.Funcs(pkg) {
+		for _, call := range top.CallsTo(true, "modules", "newModuleServiceWrapper") {
+			n++
+			key := fmt.Sprintf("wrapper-deps:func=%s#%d", top.Name, n)
+			if len(call.Expr.Args) != 6 {
+				c.Undec("R10", key, call.Expr.Pos(), "newModuleServiceWrapper is not called with its six arguments")
+				continue
+			}
+			in := call.In
+			name := in.Canon(call.Expr.Args[1])
+			start, stop := in.Canon(call.Expr.Args[4]), in.Canon(call.Expr.Args[5])
+			wantStart := "recv.DependenciesForModule(" + name + ")"
+			wantStop := "recv.inverseDependenciesForModule(" + name + ")"
+			c.Check(start == wantStart && stop == wantStop, "R10", key, call.Expr.Pos(), fmt.Sprintf("wrapper of %s: start dependencies = %s (want %s), stop dependencies = %s (want %s)", name, start, wantStart, stop, wantStop), 1)
+		}
+	}
+	if n == 0 {
+		c.Miss("R10", "call=newModuleServiceWrapper", "no construction of the module service wrapper found")
+	}
+	// DependenciesForModule is the transitive closure: its elements come from listDeps, which recurses over the deps of every dep
+	if fn := an.FindFunc(pkg, "Manager.listDeps"); fn != nil {
+		c.Analysed(fn.String())
+		rec := len(fn.CallsTo(true, "modules", "(*Manager).listDeps")) > 0
+		loops := rangeLoops(fn, "recv.modules[p0].deps")
+		c.Check(rec && len(loops) >= 1, "R10", "func=listDeps:transitive", fn.Pos(), fmt.Sprintf("listDeps ranges over the module's own dependency list and recurses into each dependency (recursion=%v, loops over recv.modules[p0].deps=%d): the query is transitive", rec, len(loops)), 1)
+	} else {
+		c.Miss("R10", "func=Manager.listDeps", "not found")
+	}
+	if fn := an.FindFunc(pkg, "Manager.DependenciesForModule"); fn != nil {
+		loops := rangeLoops(fn, "recv.listDeps(p0)")
+		c.Check(len(loops) == 1, "R10", "func=DependenciesForModule:source", fn.Pos(), "DependenciesForModule collects the elements of listDeps(module)", 1)
+	} else {
+		c.Miss("R10", "func=Manager.DependenciesForModule", "not found")
 	}
 }
